@@ -266,6 +266,10 @@ def run_point(name, kwj, logical):
         fn, kw, _ = G.build(name, kwj, list(range(n)), "nd", secs=logical.get("secs"), lon=logical["lon"], lat=logical["lat"])
     else:
         fn, kw, _ = G.build(name, kwj, logical["x"], "nd", z=logical.get("z"), secs=logical.get("secs"))
+        if logical.get("carrier") == "ma":
+            # the series as a masked array: every masked slot hides the same finite value (inside loose, outside strict spans)
+            miss = [v in (NAN, None) for v in logical["x"]]
+            kw["inp"] = np.ma.MaskedArray(np.array([logical["payload"] if m else float(v) for v, m in zip(logical["x"], miss)]), mask=miss)
     out = alpha.call(fn, **kw)
     if isinstance(out, alpha.Raised):
         return out
@@ -349,7 +353,15 @@ def tasks(tier):
 
 def run_task(task, acc):
     name, c, nchunks, tier = task
-    for k, logical in enumerate(itertools.chain(long_spaces(name), spaces(name, tier))):
+
+    def with_masked():
+        for lg in itertools.chain(long_spaces(name), spaces(name, tier)):
+            yield lg
+            x = lg.get("x")
+            if x and len(x) <= 6 and any(v == NAN for v in x) and name in ("gross_range_test", "valid_range_test", "spike_test", "rate_of_change_test", "flat_line_test", "climatology_test"):
+                for payload in ((1.5, 3.5) if name != "climatology_test" else (17.0, 23.0)):
+                    yield dict(lg, carrier="ma", payload=payload)
+    for k, logical in enumerate(with_masked()):
         if k % nchunks != c:
             continue
         vs, npoints, npairs, ndiff, res = check_logical(name, logical)
